@@ -6,8 +6,16 @@ _HERE = os.path.dirname(os.path.abspath(__file__))
 PROPS = {}
 for _f in sorted(glob.glob(os.path.join(_HERE, "c[0-9][0-9]", "prop.py"))):
     _ns = {}
-    exec(compile(open(_f).read(), _f, "exec"), _ns)
-    PROPS["C" + os.path.basename(os.path.dirname(_f))[1:]] = _ns["PROP"]
+    try:
+        exec(compile(open(_f).read(), _f, "exec"), _ns)
+        _p = _ns["PROP"]
+        for _k in ("level", "level_text", "level_note", "technique"):
+            _p[_k]
+    except Exception as _e:  # a half-written prop.py must not break the other checks
+        import sys
+        print("props: skipping %s: %r" % (_f, _e), file=sys.stderr)
+        continue
+    PROPS["C" + os.path.basename(os.path.dirname(_f))[1:]] = _p
 
 # one-line reasons for properties that have no check yet
 NOT_YET = {}
